@@ -11,6 +11,7 @@ import (
 	"context"
 	"errors"
 	"fmt"
+	"os"
 	"runtime"
 	"strings"
 	"sync"
@@ -612,22 +613,37 @@ func (s *c17MgrSM) granted(rt *rapid.T, c *c17Call, r c17PeerRes, blocked bool) 
 	s.counts["grants"]++
 }
 
-// resync: a request for h drops peers from h's pool that are blacklisted or no longer in the
-// general pool (removeIfUnreachable); whether a given one was met depends on the round-robin
-// position, so the model follows the pool here.
-func (s *c17MgrSM) resync(h int) {
+// unreachable lists the peers a request would drop from a hash pool when it meets them
+// (removeIfUnreachable: blacklisted, or not in the general pool).
+func (s *c17MgrSM) unreachable(into map[peer.ID]bool) map[peer.ID]bool {
+	if into == nil {
+		into = map[peer.ID]bool{}
+	}
+	for _, x := range s.uni {
+		if s.isBl(x) || !s.gen.present(x) {
+			into[x] = true
+		}
+	}
+	return into
+}
+
+// resync: a request for h drops peers from h's pool that are blacklisted or not in the general
+// pool; whether a given one was met depends on the round-robin position, so for the peers in
+// unreach (unreachable at some point while the request ran) the model follows the pool.
+func (s *c17MgrSM) resync(rt *rapid.T, h int, unreach map[peer.ID]bool) {
 	p := s.hp[h]
 	rp := s.env.mgr.getPool(s.hashes[h].String())
 	if p == nil || rp == nil {
 		return
 	}
 	for _, x := range s.uni {
-		if !p.isActive(x) {
+		if !p.present(x) {
 			continue
 		}
 		if st, ok := c17Status(rp.pool, x); !ok || st == removed {
-			if !s.isBl(x) && s.gen.present(x) {
-				s.counts["hash_pool_removal_of_reachable_peer"]++
+			if !unreach[x] {
+				rt.Fatalf("C17/peer-lost: a request for h%d dropped %s from the pool of h%d although it is neither blacklisted nor missing from the general pool (%s)\nhistory:\n%s",
+					h, string(x), h, s.gen.describe(x, s.clk.Now()), s.history())
 			}
 			p.remove(x)
 			s.counts["unreachable_dropped_from_hash_pool"]++
@@ -637,6 +653,7 @@ func (s *c17MgrSM) resync(h int) {
 
 func (s *c17MgrSM) peerOp(rt *rapid.T) {
 	h := s.pickHash(rt, "peer.hash")
+	unreach := s.unreachable(nil)
 	s.mValidatedPool(h)
 	if av := s.avail(h); len(av) > 0 {
 		s.logf("Peer(h%d): %d peer(s) can serve it", h, len(av))
@@ -647,25 +664,40 @@ func (s *c17MgrSM) peerOp(rt *rapid.T) {
 			rt.Fatalf("C17/request-returns: Peer(h%d) returned error %v although %v can serve it\nhistory:\n%s", h, r.err, c17IDs(av), s.history())
 		}
 		s.granted(rt, c, r, false)
-		s.resync(h)
+		s.resync(rt, h, unreach)
 		s.counts["peer_immediate"]++
 		return
 	}
-	s.peerBlocked(rt, h)
+	s.peerBlocked(rt, h, unreach)
 }
 
 // peerBlocked: requests that nobody can serve right now are started, then one further action
 // happens; requests that can be served afterwards must return a peer (waiters are woken), the
 // rest must return when their context is cancelled.
-func (s *c17MgrSM) peerBlocked(rt *rapid.T, h int) {
+func (s *c17MgrSM) peerBlocked(rt *rapid.T, h int, unreach map[peer.ID]bool) {
 	hs := []int{h}
 	for i, n := 0, rapid.IntRange(0, 2).Draw(rt, "blocked.more"); i < n; i++ {
 		hs = append(hs, s.pickHash(rt, "blocked.hash"))
 	}
 	s.logf("Peer(%s): nobody can serve h%d now; request(s) started", c17HashList(hs), h)
 	var calls []*c17Call
-	for _, hh := range hs {
+	for i, hh := range hs {
 		s.mValidatedPool(hh)
+		if vk.KnownOpen(c17SigValidationRace) {
+			// known finding: two requests racing for the first confirmation of the same hash can drop
+			// its announcers from both pools. Excluded by confirming such a hash before they start.
+			for _, prev := range hs[:i] {
+				if prev == hh {
+					if rp := s.env.mgr.getPool(s.hashes[hh].String()); rp == nil || !rp.isValidatedDataHash.Load() {
+						vk.Excluded(c17SigValidationRace)
+						s.env.mgr.validatedPool(s.hashes[hh].String(), s.heights[hh])
+					}
+					break
+				}
+			}
+		}
+	}
+	for _, hh := range hs {
 		calls = append(calls, s.startPeer(hh))
 	}
 	all := append([]*c17Call(nil), calls...)
@@ -742,8 +774,9 @@ func (s *c17MgrSM) peerBlocked(rt *rapid.T, h int) {
 		s.counts["peer_cancelled"]++
 		s.labels["request-cancelled"] = true
 	}
+	s.unreachable(unreach)
 	for _, hh := range hs {
-		s.resync(hh)
+		s.resync(rt, hh, unreach)
 	}
 }
 
@@ -831,10 +864,73 @@ func (s *c17MgrSM) op(f func(*rapid.T)) func(*rapid.T) {
 	}
 }
 
+// c17SigValidationRace: Manager.validatedPool marks a pool validated and only then promotes its
+// peers to the general pool; a second request for the same hash that loses the race for the
+// first confirmation can meanwhile take an announcer from the hash pool, find it missing from
+// the general pool and drop it, after which the promotion no longer sees it: the announcer is in
+// neither pool and requests that it could serve wait until they are cancelled.
+const c17SigValidationRace = "C17:concurrent-first-confirmation-drops-announcer"
+
+// c17ValidationRaceWitness tries (schedule-dependent, bounded) to reproduce c17SigValidationRace:
+// a peer announces a hash, then two requests for that hash start together.
+func c17ValidationRaceWitness(iterations int) (string, bool) {
+	params := *DefaultParameters()
+	hash := make([]byte, share.DataHashSize)
+	copy(hash, "verif-witness")
+	for it := 0; it < iterations; it++ {
+		env, err := newC17Env(params, "self")
+		if err != nil {
+			return "", false
+		}
+		env.mgr.Validate(context.Background(), "p1", shrexsub.Notification{DataHash: hash, Height: 5})
+		ctx, cancel := context.WithCancel(context.Background())
+		res := make(chan error, 2)
+		for i := 0; i < 2; i++ {
+			go func() {
+				_, _, err := env.mgr.Peer(ctx, hash, 5)
+				res <- err
+			}()
+		}
+		lost := false
+		for got, polls := 0, 0; got < 2 && !lost && polls < 100000; polls++ {
+			select {
+			case <-res:
+				got++
+			default:
+				st, ok := c17Status(env.mgr.getOrCreatePool(share.DataHash(hash).String(), 5).pool, "p1")
+				if ok && st == removed && !env.mgr.nodes.has("p1") && env.mgr.getPool(share.DataHash(hash).String()).isValidatedDataHash.Load() {
+					// candidate: unless the promotion is still under way, p1 is gone for good and the
+					// requests stay blocked
+					lost = true
+					for w := 0; w < 300 && lost; w++ {
+						time.Sleep(time.Millisecond)
+						if env.mgr.nodes.has("p1") || len(res) > 0 {
+							lost = false
+						}
+					}
+				}
+				runtime.Gosched()
+			}
+		}
+		cancel()
+		_ = env.stop()
+		c17WaitNoGoroutine("peers.(*Manager).Peer")
+		if lost {
+			return fmt.Sprintf("iteration %d: p1 announced the hash, two concurrent Peer requests for it started; p1 ended up removed from the hash pool and absent from the general pool, both requests wait", it), true
+		}
+	}
+	return "", false
+}
+
 func TestVerifC17_ManagerModel(t *testing.T) {
 	defer vk.Flush()
 	wd := c17StartWatchdog("manager-model")
 	defer wd.close()
+	if vk.KnownOpen(c17SigValidationRace) && os.Getenv("VERIF_SHARD") == "0" {
+		if what, ok := c17ValidationRaceWitness(4000); ok {
+			vk.FindingPresent(c17SigValidationRace, what)
+		}
+	}
 	rapid.Check(t, func(rt *rapid.T) {
 		nPeers := rapid.IntRange(1, 4).Draw(rt, "peers")
 		nHashes := rapid.IntRange(2, 5).Draw(rt, "hashes")
@@ -915,7 +1011,7 @@ func TestVerifC17_ManagerModel(t *testing.T) {
 			}
 		}
 		for _, k := range []string{"grants", "cooldowns", "expiries", "peer_immediate", "peer_woken", "peer_cancelled",
-			"unreachable_dropped_from_hash_pool", "hash_pool_removal_of_reachable_peer"} {
+			"unreachable_dropped_from_hash_pool"} {
 			vk.Count("manager_model_"+k, int64(s.counts[k]))
 		}
 		vk.Count("manager_model_actions", int64(len(s.log)-1))
